@@ -50,7 +50,18 @@ LOGIN, PW = "alice-login", "s3cr3t-passw0rd"
 FAULTS = [None, "NO", "BYE", "silence", "eof", "malformed"]
 SASLS = [(("PLAIN", "LOGIN"), None), (("PLAIN", "LOGIN"), ("LOGIN",)),
          (("PLAIN",), ("LOGIN", "PLAIN")), (("PLAIN", "LOGIN"), ()),
-         (("LOGIN",), ("PLAIN",))]
+         (("LOGIN",), ("PLAIN",)),
+         # after TLS: no SASL line at all / only mechanisms whose names merely contain the
+         # name of an implemented one
+         (("PLAIN", "LOGIN"), "absent"), (("PLAIN", "LOGIN"), ("X-PLAIN-SUBMIT", "GSSAPI")),
+         (("PLAIN",), ("XLOGIN2", "PLAIN-CLIENTTOKEN")),
+         (("DIGEST-MD5", "PLAIN"), ("DIGEST-MD5-SESS", "XOAUTHBEARER2"))]
+IMPLEMENTED = ("DIGEST-MD5", "PLAIN", "LOGIN", "OAUTHBEARER")
+
+
+def nothing_usable(post):
+    """the post-handshake listing offers no mechanism the client implements"""
+    return post is not None and (post == "absent" or not any(m in IMPLEMENTED for m in post))
 TLS = ["ok", "SSLError", "SSLCertVerificationError", "OSError"]
 
 
@@ -136,7 +147,7 @@ def run_connect(case, res: Result):
     if f is not None:
         faults[step] = f
     srv = ms.Server(users={LOGIN.encode(): PW.encode()}, sasl=list(pre),
-                    post_tls_caps=list(post) if post is not None else None,
+                    post_tls_caps=post if post in (None, "absent") else list(post),
                     starttls=cap, faults=faults, encodings="quoted")
     sess = mslab.Session(srv, tls_outcome=tls)
     out = sess.call("connect", LOGIN, PW, starttls=starttls, authmech=mech)
@@ -151,8 +162,8 @@ def run_connect(case, res: Result):
     # a broken post-TLS capability listing leaves no SASL list: connect must fail too
     if starttls and step == "post-tls-caps" and f is not None:
         tls_must_fail = True
-    if starttls and post is not None and len(post) == 0 and not tls_must_fail:
-        tls_must_fail = True  # nothing announced after TLS: no credentials may be sent
+    if starttls and nothing_usable(post) and not tls_must_fail:
+        tls_must_fail = True  # nothing usable announced after TLS: no credentials may be sent
     wit = {"starttls": starttls, "server_announces_STARTTLS": cap, "sasl_pre_tls": pre,
            "sasl_post_tls": post, "tls_handshake": tls, "authmech": mech,
            "fault": [step, f], "outcome": repr(out)[:200],
@@ -301,7 +312,7 @@ def run_random_histories(shard, res: Result):
                 tls = rng.choice(TLS) if starttls else "ok"
                 faults = {step: f} if f else {}
                 sess.server = ms.Server(users=users, sasl=list(pre),
-                                        post_tls_caps=list(post) if post is not None else None,
+                                        post_tls_caps=post if post in (None, "absent") else list(post),
                                         starttls=cap, faults=faults, encodings="quoted",
                                         scripts={b"s": b"keep;\r\n"})
                 sess.wire = ms.Wire()
@@ -314,7 +325,7 @@ def run_random_histories(shard, res: Result):
                 must_fail = starttls and (not cap or tls != "ok" or
                                           (f is not None and step in ("greeting", "STARTTLS",
                                                                       "post-tls-caps")) or
-                                          (post is not None and len(post) == 0))
+                                          nothing_usable(post))
                 problems = check_trace(sess, sess.server, starttls, out, res, {}, must_fail)
                 if not must_fail and out == ("ret", True) and not sess.server.authenticated:
                     problems.append(("connect-true-but-server-did-not-accept", "-"))
